@@ -383,7 +383,7 @@ def run(ctx):
         reqs = [json.load(open(ctx.replay))["request"]]
         stats = {}
     else:
-        nh, steps = (2500, 70) if ctx.tier == "quick" else (60000, 160)
+        nh, steps = (1500, 70) if ctx.tier == "quick" else (20000, 160)
         reqs, stats = [], {}
         for _ in range(nh):
             r, st = gen_history(ctx.rng, steps if ctx.rng.random() < 0.8 else steps * 2)
@@ -476,6 +476,22 @@ def run(ctx):
         if per[fid] and not ctx.find_known(fid):
             k = [k for k, a in zip(differing, alt) if a != model[k]][0]
             ctx.violation(fid + "-class", {"request": reqs[k], "impl": impl[k], "spec": spec[k], "what": what})
+    # the executable certificates behind the conditional theorems (T14_*_certified), on the states of the histories
+    ncert = min(len(reqs), 300 if ctx.tier == "quick" else 3000)
+    _, certs, _ = run_bin([xm, "certs", flags], reqs[:ncert])
+    c_eval = c_bad = 0
+    for req, c in zip(reqs, certs):
+        p = c.split()
+        if len(p) != 3 or p[0] != "certs":
+            ctx.violation("model-crash", {"what": "certificate run failed", "request": req, "answer": c}, no_input=True)
+            break
+        c_eval += int(p[1])
+        if int(p[2]):
+            c_bad += int(p[2])
+            if c_bad == int(p[2]):
+                ctx.violation("certificate", {"request": req, "what": "a navigation certificate (Cert14.step_cert) is false in a state "
+                                              "of this history: the hypotheses of the conditional theorems do not hold there", "answer": c})
+    ctx.coverage["certificates"] = {"histories": ncert, "steps_evaluated": c_eval, "failed": c_bad}
     ctx.coverage["traces_validated_against_impl"] = len(reqs)
     ctx.coverage["ops_compared"] = nops
     ctx.coverage["spec_oracle_checked"] = len(reqs)
